@@ -1188,9 +1188,11 @@ def rule_take_while(F, rep, rid, pred, where_txt):
     rep.ok(rid, 'scan', None, 'no take-while loop in %d functions of %s (fixture: 1 of 2 functions flagged, as expected)' % (n, where_txt))
 
 
-def lost_values(f, is_interesting):
+def lost_values(f, is_interesting, self_overwrite=False):
     """Assignments `x = E` (x a local; is_interesting(E)) whose value can be overwritten by another assignment of x before it was read on
-    some path (the value read from the model is lost).  Returns [(assignment node, overwriting node)]."""
+    some path (the value read from the model is lost).  With self_overwrite, the assignment itself reached again round a loop before any read
+    counts too (the value of one iteration is replaced by that of the next: only the last element survives).
+    Returns [(assignment node, overwriting node)]."""
     cfg = f.cfg()
     if cfg is None:
         return []
@@ -1212,6 +1214,8 @@ def lost_values(f, is_interesting):
         def scan(blk, start):
             for e in blk['el'][start:]:
                 x = f.nodes.get(e)
+                if x is a and self_overwrite:
+                    return 'write', x
                 if x is None or x is a:
                     continue
                 if x.get('k') in ('Bin', 'Call') and (x.get('op') == '=' or x.get('opc') == '=') and x.get('c') and x['c'][0].get('k') == 'Ref' and x['c'][0].get('d') == d:
@@ -1278,3 +1282,158 @@ def rule_address_order(F, rep, rid, pred, where_txt):
         for b in address_orderings(g):
             rep.fail(rid, '%s|%s' % (g.short.split('::')[-1], render(b)[:40]), g.where(b), '%s orders two objects by address: `%s`' % (g.short, render(b)[:60]))
     rep.ok(rid, 'scan', None, 'no ordering of objects by address in %d functions of %s (fixture: 1 of 2 functions flagged, as expected)' % (n, where_txt))
+
+
+def regex_unbounded(pattern):
+    """Unescaped quantifiers of an ECMAScript regular expression that allow an unbounded (or large) number of repetitions: `*`, `+`, `{n,}`,
+    `{n,m}` with m > 32.  Characters inside a class [...] and escaped characters are not quantifiers."""
+    out = []
+    i, n = 0, len(pattern)
+    in_class = False
+    while i < n:
+        ch = pattern[i]
+        if ch == '\\':
+            i += 2
+            continue
+        if in_class:
+            if ch == ']':
+                in_class = False
+            i += 1
+            continue
+        if ch == '[':
+            in_class = True
+            i += 1
+            if i < n and pattern[i] == '^':
+                i += 1
+            if i < n and pattern[i] == ']':
+                i += 1
+            continue
+        if ch in '*+':
+            out.append(ch)
+        elif ch == '{':
+            j = pattern.find('}', i)
+            body = pattern[i + 1:j] if j > 0 else ''
+            parts = body.split(',')
+            if len(parts) == 2 and (parts[1].strip() == '' or (parts[1].strip().isdigit() and int(parts[1]) > 32)):
+                out.append('{' + body + '}')
+            elif len(parts) == 1 and parts[0].strip().isdigit() and int(parts[0]) > 32:
+                out.append('{' + body + '}')
+        i += 1
+    return out
+
+
+def regex_sites(f):
+    """std::regex objects constructed from a literal in f and the regex_match/search/replace calls that use them:
+    [(Var node, pattern, [call nodes])]; a regex built from a non-literal yields pattern None."""
+    out = []
+    for v in f.walk():
+        if v.get('k') == 'Var' and 'basic_regex' in (v.get('t') or '') and v.get('c'):
+            lit = next((x for x in walk(v['c'][0]) if x.get('k') == 'Str'), None)
+            uses = [c for c in f.walk() if c.get('k') == 'Call' and (c.get('callee') or '').startswith(('std::regex_match', 'std::regex_search', 'std::regex_replace'))
+                    and any(r.get('k') == 'Ref' and r.get('d') == v.get('d') for r in walk(c))]
+            out.append((v, lit.get('v') if lit is not None else None, uses))
+    # temporaries: std::regex_match(s, std::regex("..."))
+    for c in f.walk():
+        if c.get('k') == 'Call' and (c.get('callee') or '').startswith(('std::regex_match', 'std::regex_search', 'std::regex_replace')):
+            for a in c.get('c', []):
+                if a.get('k') != 'Ref':
+                    for x in walk(a):
+                        if x.get('k') == 'Construct' and x.get('cls') == 'std::basic_regex':
+                            lit = next((y for y in walk(x) if y.get('k') == 'Str'), None)
+                            out.append((x, lit.get('v') if lit is not None else None, [c]))
+    return out
+
+
+def rule_regex_depth(F, rep, rid, pred, exempt, floor, where_txt):
+    from facts import AnalysisBroken, fixture_funcs
+    rep.rule(rid, 'a std::regex that %s applies to text derived from its input has no unbounded repetition (*, +, {n,}): libstdc++ matches by recursive backtracking, one stack frame per repetition, so a few tens of '
+                  'thousands of characters (a long digit string in a 64 KiB document) exhaust the stack inside regex_match/regex_search/regex_replace' % where_txt)
+    fx = fixture_funcs('regexrep')
+    bad = [(p_, regex_unbounded(p_)) for v, p_, u in regex_sites(fx['fixtureRegexBad'])]
+    good = [(p_, regex_unbounded(p_)) for v, p_, u in regex_sites(fx['fixtureRegexGood'])]
+    if len(bad) != 1 or not bad[0][1] or len(good) != 2 or any(q for p_, q in good):
+        raise AnalysisBroken('%s: the detector does not separate the fixture functions (sa/fixtures/src/regexrep.cpp): %s %s' % (rid, bad, good))
+    n = 0
+    for g in F.funcs.values():
+        if not pred(g):
+            continue
+        for v, pat, uses in regex_sites(g):
+            n += 1
+            key = '%s|%s' % (g.short.split('::')[-1], (pat if pat is not None else '<not a literal>')[:40])
+            if (g.name, pat) in exempt:
+                rep.exempt(rid, key, exempt[(g.name, pat)])
+                continue
+            if pat is None:
+                rep.fail(rid, key, g.where(v), '%s builds a std::regex from a non-literal pattern: its repetition depth cannot be bounded' % g.short)
+                continue
+            q = regex_unbounded(pat)
+            rep.check(not q, rid, key, g.where(v), '%s matches input text against `%s`, which repeats without bound (%s): the libstdc++ matcher recurses once per repetition and overflows the stack on a long run of matching characters' % (g.short, pat, ' '.join(q)),
+                      'no unbounded repetition; used by %d call(s)' % len(uses))
+    if n < floor:
+        raise AnalysisBroken('%s: only %d std::regex objects found in %s (%d confirmed)' % (rid, n, where_txt, floor))
+
+
+def use_facts(F, f, node):
+    """Facts (text, truth) under which the VALUE of `node` is used.  Normally the branch facts at the node; when the node is an argument of a
+    call to a local lambda or to a helper function with a body, the facts at the places where the callee uses that parameter outside a
+    condition (e.g. appends it to the output), parameters replaced by the arguments, plus the facts at the call site:
+        add(mModel->needX(), mProfile->xString())  with  add = [](bool need, const std::string &s) { if (need && !s.empty()) out += s; }
+    yields (mModel->needX(), True) for the argument mProfile->xString()."""
+    base = set(facts_x(F, f, node) or set())
+    call = None
+    child = node
+    for a in f.ancestors(node):
+        if a.get('k') in ('Cast', 'Temp', 'Bind', 'Paren', 'Construct') and len(a.get('c', [])) == 1:
+            child = a
+            continue
+        if a.get('k') == 'Call':
+            call = a
+        break
+    if call is None:
+        return base
+    params, body, owner, args = None, None, None, None
+    c0 = call.get('c', [])
+    if call.get('opc') == '()' and c0 and c0[0].get('k') == 'Ref' and c0[0].get('dk') == 'local':
+        lam = single_def(f, c0[0].get('d'))
+        while lam is not None and lam.get('k') in ('Cast', 'Temp', 'Bind', 'Paren', 'Construct') and len(lam.get('c', [])) == 1:
+            lam = lam['c'][0]
+        if lam is not None and lam.get('k') == 'Lambda':
+            params, body, owner, args = lam.get('params', []), lam, f, c0[1:]
+    elif not call.get('opc'):
+        for ck in F.callee_keys(call):
+            g = F.funcs.get(ck)
+            if g is not None and g is not f and '/src/' in g.file and len(list(g.walk())) < 400:
+                params, body, owner, args = g.params, g.body, g, (c0[1:] if call.get('mc') else c0)
+                break
+    if params is None or len(args) != len(params) or body is None:
+        return base
+    try:
+        j = next(i for i, a in enumerate(args) if a is child or any(x is node for x in walk(a)))
+    except StopIteration:
+        return base
+    sub = {p_['n']: render(a) for p_, a in zip(params, args) if p_.get('n')}
+    uses = []
+    for r in walk(body):
+        if r.get('k') == 'Ref' and r.get('d') == params[j].get('d'):
+            in_cond = False
+            ch = r
+            for a in owner.ancestors(r):
+                if a.get('k') in ('If', 'While', 'For', 'Cond') and role(a, 'cond') is ch:
+                    in_cond = True
+                    break
+                if a.get('k') == 'Bin' and a.get('op') in ('&&', '||'):
+                    in_cond = True
+                    break
+                if a is body:
+                    break
+                ch = a
+            if not in_cond:
+                uses.append(r)
+    if not uses:
+        return base
+    inner = None
+    for r in uses:
+        fx = {(subst_names(t, sub), tr) for t, tr in (facts_x(F, owner, r) or set())}
+        inner = fx if inner is None else (inner & fx)
+    return base | (inner or set())
+
